@@ -101,6 +101,9 @@ type dWorld struct {
 	// parkMisses counts pairs whose clients were never seen parked in the
 	// shared lookup (after two, later pairs are only paced)
 	parkMisses int
+	// barrier: the harness's own socket and sequence for sentinel datagrams
+	bconn *net.UDPConn
+	bseq  int
 }
 
 const dPlaceholderTLD = "test."
@@ -128,10 +131,74 @@ func newDWorld() (*dWorld, error) {
 	if err := u.Start(); err != nil {
 		return nil, err
 	}
+	bc, err := net.ListenUDP("udp4", &net.UDPAddr{IP: net.IPv4(127, 0, 0, 1)})
+	if err != nil {
+		u.Close()
+		return nil, err
+	}
+	w.bconn = bc
+	go func() { // discard the servers' replies to the sentinels
+		buf := make([]byte, 2048)
+		for {
+			if _, _, err := bc.ReadFromUDP(buf); err != nil {
+				return
+			}
+		}
+	}()
 	return w, nil
 }
 
-func (w *dWorld) close() { w.u.Close() }
+func (w *dWorld) close() {
+	if w.bconn != nil {
+		_ = w.bconn.Close()
+	}
+	w.u.Close()
+}
+
+const dBarrierZone = "c19d-barrier.invalid."
+
+// barrier makes the packet log complete up to now: a datagram the resolver
+// has already sent may still sit in an authority's socket buffer when the
+// resolver has gone quiet (the authority's reader goroutine has not been
+// scheduled yet). Each authority reads and logs its socket sequentially, so
+// once a sentinel sent NOW shows up in the log, everything sent to that
+// socket before it has been logged too. false = timed out (inconclusive).
+func (w *dWorld) barrier(from int) bool {
+	w.bseq++
+	name := fmt.Sprintf("b%d.%s", w.bseq, dBarrierZone)
+	m := new(dns.Msg)
+	m.SetQuestion(name, dns.TypeTXT)
+	pkt, err := m.Pack()
+	if err != nil {
+		return false
+	}
+	servers := []*authsim.Server{w.u.Server("root"), w.u.Server("tld"), w.geo, w.gl}
+	for _, s := range servers {
+		ua, err := net.ResolveUDPAddr("udp4", s.Addr())
+		if err != nil {
+			return false
+		}
+		if _, err := w.bconn.WriteToUDP(pkt, ua); err != nil {
+			return false
+		}
+	}
+	deadline := time.Now().Add(10 * time.Second)
+	for {
+		got := map[string]bool{}
+		for _, p := range w.u.Log.Since(from) {
+			if p.QNameL == name {
+				got[p.Server] = true
+			}
+		}
+		if len(got) >= len(servers) {
+			return true
+		}
+		if time.Now().After(deadline) {
+			return false
+		}
+		time.Sleep(100 * time.Microsecond)
+	}
+}
 
 // live maps a scenario name (placeholder TLD) to the live namespace.
 func (w *dWorld) live(name string) string {
@@ -299,6 +366,8 @@ type denv struct {
 	win   int
 	adv   time.Duration
 	gates map[string]*authsim.Gate
+	// winFrom: packet-log position where the current window started
+	winFrom int
 }
 
 func newDEnv(r *vlib.Run, w *dWorld, sc *dScenario) (*denv, error) {
@@ -461,6 +530,13 @@ func (e *denv) quiet(timeout time.Duration) bool {
 // cache entry holds a background-refresh claim). A timeout is inconclusive,
 // never a verdict.
 func (e *denv) settle() bool {
+	if !e.settleQuiet() {
+		return false
+	}
+	return e.w.barrier(e.winFrom)
+}
+
+func (e *denv) settleQuiet() bool {
 	deadline := time.Now().Add(20 * time.Second)
 	for {
 		if !e.quiet(15 * time.Second) {
@@ -503,7 +579,8 @@ func (e *denv) nextWindow(idx int) int {
 	e.mu.Lock()
 	e.win = idx
 	e.mu.Unlock()
-	return e.w.u.Log.Len()
+	e.winFrom = e.w.u.Log.Len()
+	return e.winFrom
 }
 
 func caseOfD(e *denv, idx int, extra map[string]any) map[string]any {
@@ -528,6 +605,7 @@ func runScenarioD(r *vlib.Run, w *dWorld, sc *dScenario) {
 		r.Inconclusive("harness (part D): " + err.Error())
 		return
 	}
+	e.winFrom = start
 	defer e.close()
 	r.Count("d_scenarios", 1)
 	switch {
@@ -555,6 +633,7 @@ func runScenarioD(r *vlib.Run, w *dWorld, sc *dScenario) {
 		switch op.Kind {
 		case "adv":
 			from := w.u.Log.Len()
+			e.winFrom = from
 			e.advance(secs(op.AdvSec))
 			r.Count("d_clock_advances", 1)
 			e.judgePackets(i, nil, w.u.Log.Since(from))
